@@ -58,7 +58,11 @@ def _record_job(job):
         return tr
     except common.Violation as v:
         return {"cfg": cfg, "steps": [], "not_observable": f"violation: {v.what}", "violation": [v.key, v.what]}
-    except Exception as e:   # construction/elaboration problems belong to C19
+    except Exception as e:   # construction/elaboration problems belong to C19 ...
+        judge = getattr(_AD, "classify_exception", None)
+        v = judge(cfg, e) if judge else None          # ... unless the property itself promises this configuration works
+        if v:
+            return {"cfg": cfg, "steps": [], "not_observable": f"violation: {v[1]}", "violation": list(v)}
         return {"cfg": cfg, "steps": [], "not_observable": f"{type(e).__name__}: {e}"}
 
 
